@@ -24,7 +24,7 @@ Record query := mkq {
   q_max : option Z                (* max_variants *)
 }.
 
-Definition vrec := (variant * list call)%type.
+Notation vrec := (variant * list call)%type.
 
 (* ---- sample restriction: file order, unknown names ignored ------------------ *)
 
@@ -130,12 +130,14 @@ Section Pgen.
   Definition pgen_records (c : geno) (q : query) : list vrec :=
     pvar_scan (q_region q) (q_ids q) (combine (g_variants c) (g_rows c)).
 
-  (* GenotypesPLINK.__iter__: PvarReader (raises on an empty .pvar), read_samples,
-     PgenReader (raises on an empty sample subset), then one record per variant *)
-  Definition pgen_iter_q (c : geno) (q : query) : res (list Z * list vrec) :=
+  (* GenotypesPLINK.__iter__: PvarReader, read_samples, PgenReader (raises on an
+     empty sample subset), then one record per variant.  A .pvar without variants
+     makes PvarReader raise: legacy = pinned tree lets the RuntimeError escape,
+     fixed = warning + samples + empty iterator, like read() *)
+  Definition pgen_iter_q (legacy : bool) (c : geno) (q : query) : res (list Z * list vrec) :=
     let m := keep_mask (q_samples q) (g_samples c) in
     let samples' := mask m (g_samples c) in
-    if is_nil (g_variants c) then Err E_Runtime
+    if is_nil (g_variants c) then (if legacy then Err E_Runtime else Ok (samples', []))
     else if is_nil samples' then Err E_Runtime
     else Ok (samples', map (fun r => (fst r, map (load_call pload) (to_stored (mask m (snd r)))))
                            (pgen_records c q)).
